@@ -444,6 +444,39 @@ func c12Families(tier string) []explore.Family {
 	}})
 
 	fams = append(fams, c12LiveFamily())
+	// "holds exactly the assigned value": a variable assigned from a literal or another variable can stand wherever
+	// that literal or variable stood - also where the KIND of the value matters (an integer or a float divisor, an
+	// index, a range bound, json, sorting next to strings), not only where it is printed
+	akExprs := []string{"4.0", "4", "fx", "ix", "'4'", "true", "nil", "2.50", "-0.0", "1.0", "f1", "u8", "'4.0'", "big", "lst", "mp", "fl32"}
+	akUses := []string{"{{ 10 | divided_by: V }}", "{{ V | type }}", "{{ V }}|{{ V | json }}", "{{ V | plus: 1 }}|{{ V | times: 3 }}|{{ 7 | modulo: V }}", "{% if V == 4 %}E{% endif %}{% if V %}T{% endif %}{% if V == '4' %}S{% endif %}",
+		"{{ l[V] }}", "{% for i in (1..V) %}{{ i }}{% endfor %}", "{{ l | slice: V | join }}|{{ 'abcdefg' | slice: V }}", "{% case V %}{% when 4 %}four{% when '4' %}str{% when 4.5 %}f{% else %}other{% endcase %}",
+		"{{ V | append: '' }}|{{ V | size }}", "{{ V | round }}|{{ V | ceil }}|{{ V | abs }}", "{{ l | join: V }}", "{% for i in l limit: V %}{{ i }}{% endfor %}", "{{ V | default: 'd' }}", "{{ 9 | minus: V | type }}"}
+	fams = append(fams, explore.Family{Name: "assigned-variable-stands-for-its-value", Count: int64(len(akExprs) * len(akUses) * 3), Run: func(i int64, r *explore.Rec) {
+		rx := radix{i}
+		route, use, e := rx.next(3), akUses[rx.next(len(akUses))], akExprs[rx.next(len(akExprs))]
+		bind := func() map[string]any {
+			return map[string]any{"fx": 4.0, "ix": 4, "f1": 1.0, "u8": uint8(4), "big": 1e15, "lst": []any{1, 2.0}, "mp": map[string]any{"a": 2.0}, "fl32": float32(2), "l": []any{"a", "b", "c", "d", "e", "f"}}
+		}
+		direct := strings.ReplaceAll(use, "V", e)
+		var via string
+		switch route {
+		case 0:
+			via = "{% assign v = " + e + " %}" + strings.ReplaceAll(use, "V", "v")
+		case 1:
+			via = "{% assign w = " + e + " %}{% assign v = w %}" + strings.ReplaceAll(use, "V", "v")
+		default:
+			via = "{% for q in (1..2) %}{% assign v = " + e + " %}{% endfor %}{% if true %}" + strings.ReplaceAll(use, "V", "v") + "{% endif %}"
+		}
+		r.Eval()
+		r.Transition()
+		r.Trace()
+		od, ov := Render(c12.eng, direct, bind()), Render(c12.eng, via, bind())
+		r.Class("assigned-kind/" + od.Class())
+		r.State("assigned-kind")
+		if od.Panic != nil || ov.Panic != nil || (od.Err != nil) != (ov.Err != nil) || od.Out != ov.Out {
+			r.Violation("wrong:assigned-value-not-exact", map[string]any{"direct": direct, "via_assign": via}, od.String(), ov.String())
+		}
+	}})
 	fams = append(fams, explore.Family{Name: "capture-equivalence-fragments", Count: int64(len(frags) * len(frags) * len(binds)), Run: func(i int64, r *explore.Rec) {
 		rx := radix{i}
 		b, f2, f1 := binds[rx.next(len(binds))], frags[rx.next(len(frags))], frags[rx.next(len(frags))]
